@@ -284,6 +284,8 @@ def snapshot(proto):
     return rt, bk, ds, qa, qr, pq
 
 
+REPLY_PAYLOAD_ERRORS = {'bad contact triple', 'response dict keys', 'no token', 'bad contacts', 'bad page count',
+                        'bad compact addresses', 'bad response type'}
 SNAP_NAMES = ('routing table', 'bucket ranges', 'data store', 'add queue', 'remove queue', 'ping queue')
 # reference errors that mean "these bytes are not bencode at all" -> site class used in violations
 ENCODING_LEVEL = {
@@ -299,10 +301,12 @@ def judge_delivery(run, net, ep, data, src, how):
     from lbry.dht.serialization.datagram import decode_datagram, RequestDatagram, ResponseDatagram, ErrorDatagram
     proto = ep.protocol
     enc_error = None
+    ref_error = None
     try:
         ref = bref.parse_message(data)
-    except bref.RefError:
+    except bref.RefError as e0:
         ref = None
+        ref_error = str(e0)
         try:
             bref.decode(data)
         except bref.RefError as e:
@@ -322,6 +326,16 @@ def judge_delivery(run, net, ep, data, src, how):
     now = proto.loop.time()
     # which failures THIS delivery books (several datagrams can share one virtual instant, so the time stamp of the
     # record does not tell): an observation wrapper on the instance for the duration of the call
+    # a reply (envelope type 1) to a request this node has pending: if the datagram is not a well-formed message it is
+    # no answer - the sender must not be booked as having replied nor be queued for the routing table
+    pending_reply = False
+    if ref is None and prod is not None and isinstance(prod, ResponseDatagram):
+        entry = proto.sent_messages.get(prod.rpc_id)
+        # ... where "not well-formed" is a malformed PAYLOAD (an odd envelope - extra top-level keys, legacy key spelling -
+        # around a proper payload is tolerated by the product on purpose and stays in the lenient class)
+        pending_reply = entry is not None and entry[0].address == src[0] and not entry[1].done() and \
+            ref_error in REPLY_PAYLOAD_ERRORS
+    replied_before = proto.peer_manager._last_replied.get((src[0], src[1])) if pending_reply else None
     booked = []
     pm = proto.peer_manager
     booked_orig = pm.report_failure
@@ -373,6 +387,15 @@ def judge_delivery(run, net, ep, data, src, how):
                       f'{len(data)} bytes from {src}: {str(exc)[:120]}; datagram {data[:80]!r}',
                       exc=type(exc).__name__, decoded=prod is not None)
         return False
+    if pending_reply:
+        run.probes['malformed_reply_to_pending_request'] += 1
+        after_q = snapshot(proto)
+        if proto.peer_manager._last_replied.get((src[0], src[1])) != replied_before or after_q[3] != before[3]:
+            run.violation('C17.malformed_reply_accepted', f'a {how} reply from {src} to a pending request is not a well-formed '
+                          f'message ({ref_error}) and was still accepted: the sender was booked as having replied'
+                          f'{" and queued for the routing table" if after_q[3] != before[3] else ""}; datagram {data[:160]!r}',
+                          what='reply')
+            return False
     if prod is None:
         run.probes['class_b_rejected_both'] += 1
         run.probes['state_compared'] += 1
